@@ -159,6 +159,7 @@ RemoveOp(n, ks) == IF MapWalk(n, ks) THEN O("ok", DelAt(n, ks)) ELSE O("err", n)
 RenameOp(n, ks, new) ==
   IF ~PathExists(n, ks) THEN O("err", n)
   ELSE IF PathExists(n, Append(Front(ks), new)) THEN O("err", n)   \* any depth, top level included
+  ELSE IF new = "" THEN O("err", n)   \* (as implemented: the existence test of the new path reads a trailing empty key as its parent -- the empty name is always refused, cleanly)
   ELSE IF ~MapWalk(n, ks) THEN O("err", n)
   ELSE O("ok", SetAt(DelAt(n, ks), Append(Front(ks), new), GetAt(n, ks)))
 SetOp(n, ks, v) ==
